@@ -38,7 +38,7 @@ use crate::ast::{self, CtxK, KeyOf, Node, HK};
 use crate::c05::ts;
 use crate::c18::{ca_wire, A, CA};
 use crate::common::{Out, Rng};
-use crate::msops::{self, hash_id, show_ext, KeyId};
+use crate::msops::{self, hash_id, show_ext};
 use crate::with_ctx;
 
 /// key id handed to the tr entry points as "unspendable key" (never used inside a policy)
@@ -84,6 +84,24 @@ fn build<Pk: KeyOf>(c: &CA) -> Option<Concrete<Pk>> {
     })
 }
 
+/// or-odds the text form can express (`parse_num_nonzero`: 1 ..= u32::MAX)
+fn odds_textual(c: &CA) -> bool {
+    match c {
+        CA::Leaf(_) => true,
+        CA::And(s) | CA::Thresh(_, s) => s.iter().all(odds_textual),
+        CA::Or(s) => s.iter().all(|(w, x)| *w >= 1 && *w <= u32::MAX as usize && odds_textual(x)),
+    }
+}
+
+fn has_const(c: &CA) -> bool {
+    match c {
+        CA::Leaf(A::Triv) | CA::Leaf(A::Unsat) => true,
+        CA::Leaf(_) => false,
+        CA::And(s) | CA::Thresh(_, s) => s.iter().any(has_const),
+        CA::Or(s) => s.iter().any(|(_, x)| has_const(x)),
+    }
+}
+
 fn n_leaves(c: &CA) -> usize {
     match c {
         CA::Leaf(_) => 1,
@@ -92,19 +110,50 @@ fn n_leaves(c: &CA) -> usize {
     }
 }
 
+/* ------------------------------------------------------------------ key table of this property */
+
+/// ids known to C08: 0..100 compressed, 100..104 uncompressed (same points as 0..4), 200..300
+/// x-only (the resource-limit cases need up to 100 distinct keys)
+pub trait Kid8 { fn kid(&self) -> Option<u32>; }
+fn full_table() -> &'static Vec<(u32, PublicKey)> {
+    static T: std::sync::OnceLock<Vec<(u32, PublicKey)>> = std::sync::OnceLock::new();
+    T.get_or_init(|| (0..104).map(|i| (i, ast::full_key(i))).collect())
+}
+fn x_table() -> &'static Vec<(u32, XOnlyPublicKey)> {
+    static T: std::sync::OnceLock<Vec<(u32, XOnlyPublicKey)>> = std::sync::OnceLock::new();
+    T.get_or_init(|| (200..300).map(|i| (i, ast::xonly_key(i))).collect())
+}
+impl Kid8 for PublicKey { fn kid(&self) -> Option<u32> { full_table().iter().find(|(_, k)| k == self).map(|(i, _)| *i) } }
+impl Kid8 for XOnlyPublicKey { fn kid(&self) -> Option<u32> { x_table().iter().find(|(_, k)| k == self).map(|(i, _)| *i) } }
+
+/// `D key` lines for the ids beyond the shared table (ast::emit_defs: 0..10, 100..104, 200..210)
+fn emit_more_keys(out: &mut Out) {
+    for id in 10..100 {
+        let k = ast::full_key(id);
+        let ser = k.to_bytes();
+        let pkh = hash160::Hash::hash(&ser);
+        out.line(&format!("D key {} {} {} {}", id, ast::hex(&ser), ast::hex(&ast::bip67_sort(&k)), ast::hex(pkh.as_byte_array())), "ok");
+    }
+    for id in 210..300 {
+        let ser = ast::xonly_key(id).serialize();
+        let pkh = hash160::Hash::hash(&ser);
+        out.line(&format!("D key {} {} {} {}", id, ast::hex(&ser), ast::hex(&ser), ast::hex(pkh.as_byte_array())), "ok");
+    }
+}
+
 /* ------------------------------------------------------------------ Miniscript -> Node */
 
 /// Reverse of `ast::to_ms`; also collects, in pre-order (node, then children left to right),
 /// the `ty|ext` annotation the real value carries at every node.
-fn from_ms<Pk: KeyOf + KeyId, Ctx: ScriptContext>(ms: &Miniscript<Pk, Ctx>, ann: &mut Vec<String>) -> Option<Node> {
+fn from_ms<Pk: KeyOf + Kid8, Ctx: ScriptContext>(ms: &Miniscript<Pk, Ctx>, ann: &mut Vec<String>) -> Option<Node> {
     ann.push(format!("{}|{}", ts(&ms.ty), show_ext(&ms.ext).replace(' ', "_")));
     let mut sub = |x: &Arc<Miniscript<Pk, Ctx>>| -> Option<Box<Node>> { from_ms(x, ann).map(Box::new) };
-    let keys = |v: &[Pk]| -> Option<Vec<u32>> { v.iter().map(|k| k.id()).collect() };
+    let keys = |v: &[Pk]| -> Option<Vec<u32>> { v.iter().map(|k| k.kid()).collect() };
     Some(match &ms.node {
         Terminal::True => Node::True,
         Terminal::False => Node::False,
-        Terminal::PkK(k) => Node::PkK(k.id()?),
-        Terminal::PkH(k) => Node::PkH(k.id()?),
+        Terminal::PkK(k) => Node::PkK(k.kid()?),
+        Terminal::PkH(k) => Node::PkH(k.kid()?),
         Terminal::RawPkH(h) => Node::RawPkH(msops::rawpkh_id(h)?),
         Terminal::After(n) => Node::After(n.to_consensus_u32()),
         Terminal::Older(n) => Node::Older(n.to_consensus_u32()),
@@ -143,7 +192,7 @@ fn sem_wire(p: &Semantic<PublicKey>) -> Option<String> {
     Some(match p {
         Semantic::Unsatisfiable => "UNSATISFIABLE".into(),
         Semantic::Trivial => "TRIVIAL".into(),
-        Semantic::Key(k) => format!("pk({})", msops::key_id_full(k)?),
+        Semantic::Key(k) => format!("pk({})", k.kid()?),
         Semantic::After(t) => format!("after({})", t.to_consensus_u32()),
         Semantic::Older(t) => format!("older({})", t.to_consensus_u32()),
         Semantic::Sha256(h) => format!("sha256({})", hash_id(HK::Sha256, h.as_ref())?),
@@ -199,10 +248,33 @@ struct Run<'a> {
     /// only the taproot entry points (many-leaf policies: one miniscript for the whole policy
     /// takes seconds to compile and is not what these cases are about)
     tr_only: bool,
+    /// input classes outside C08's statement in which the compiler is known to panic instead of
+    /// returning (key kinds, odds that only the public enum can express): a panic is COUNTED as an
+    /// observation with this label instead of being judged
+    panic_obs: Option<&'static str>,
+    /// large outputs: judge with `J compiledsane` (probe worlds) instead of `J compiled`
+    big: bool,
+    /// id of the key handed to the tr entry points as "unspendable key"
+    unsp: u32,
+    /// skip compile_tr_native (see the stack-overflow observation in `run`)
+    no_native: bool,
+    /// emit `J refuses` for every policy (dimension cells); otherwise only for policies with a
+    /// constant or without any key, the ones that can be in the class at all besides key kinds
+    all_refuses: bool,
 }
 
 impl<'a> Run<'a> {
+    /// `J refuses`: the outcome of one entry point, for the Lean side to compare with "no
+    /// conforming output exists" (small policies only: the judge enumerates worlds)
+    fn refuses_line<T, E: std::fmt::Debug>(&mut self, ctx: &str, entry: &str, c: &CA, pw: &str, r: &Option<Result<T, E>>) {
+        if n_leaves(c) > 8 { return; }
+        if !(self.all_refuses || has_const(c) || n_keys(c) == 0) { return; }
+        let outcome = match r { None => "PANIC".to_string(), Some(Err(e)) => format!("Err:{}", err_kind2(e)), Some(Ok(_)) => "Ok".to_string() };
+        self.out.line(&format!("J refuses {} {} {} {}", ctx, entry, pw, outcome), "ok");
+    }
+
     fn timed<T>(&mut self, what: &str, pw: &str, f: impl FnOnce() -> T) -> Option<T> {
+        if std::env::var("VERIF_C08_TRACE").is_ok() { eprintln!("compile {} {}", what, &pw[..pw.len().min(120)]); }
         let t0 = Instant::now();
         let r = guard_msg(f);
         let dt = t0.elapsed().as_millis();
@@ -211,6 +283,13 @@ impl<'a> Run<'a> {
         match r {
             Ok(x) => Some(x),
             Err(msg) => {
+                if let Some(label) = self.panic_obs {
+                    let entry = what.split('-').next().unwrap_or(what);
+                    let key = format!("observation: {}: {} panics ({})", label, entry, msg);
+                    self.out.count(&key);
+                    if !self.out.notes.contains_key(&key) { self.out.note(&key, format!("{} {}", what, pw)); }
+                    return None;
+                }
                 // the compiler did not return at all: reported through the generic no-panic judge
                 self.out.line(&format!("J nopanic compile {} {} {} PANIC", what, pw, msg), "ok");
                 None
@@ -219,7 +298,7 @@ impl<'a> Run<'a> {
     }
 
     /// one plain-miniscript output
-    fn judge_ms<Pk: msops::HKey, Ctx: ScriptContext>(&mut self, target: &str, ctx: CtxK, pw: &str, ms: &Miniscript<Pk, Ctx>,
+    fn judge_ms<Pk: msops::HKey + Kid8, Ctx: ScriptContext>(&mut self, target: &str, ctx: CtxK, pw: &str, ms: &Miniscript<Pk, Ctx>,
         parse: &dyn Fn(&str) -> Result<Miniscript<Pk, Ctx>, miniscript::Error>) {
         let mut ann = vec![];
         let node = match from_ms(ms, &mut ann) {
@@ -228,7 +307,8 @@ impl<'a> Run<'a> {
         };
         self.programs += 1;
         node.count_frags(self.out);
-        self.out.line(&format!("J compiled {} {} {} {}", target, pw, node.wire(), ann.join(";")), "ok");
+        let op = if self.big { "compiledsane" } else { "compiled" };
+        self.out.line(&format!("J {} {} {} {} {}", op, target, pw, node.wire(), ann.join(";")), "ok");
         // re-parse from the own string form under the default (sane) rules
         let s = ms.to_string();
         let verdict = match guard(|| parse(&s)) {
@@ -252,8 +332,8 @@ impl<'a> Run<'a> {
 
     fn judge_tr(&mut self, entry: &str, pw: &str, desc: &Descriptor<PublicKey>) {
         let tr = match desc { Descriptor::Tr(t) => t, _ => { self.out.line(&format!("J compiledtr {} {} NOT-TR - -", entry, pw), "ok"); return; } };
-        let ik = match msops::key_id_full(tr.internal_key()) {
-            Some(i) if i == UNSPENDABLE => "UNSPENDABLE".to_string(),
+        let ik = match tr.internal_key().kid() {
+            Some(i) if i == self.unsp => "UNSPENDABLE".to_string(),
             Some(i) => i.to_string(),
             None => "?".to_string(),
         };
@@ -281,8 +361,16 @@ impl<'a> Run<'a> {
             Some(Err(e)) => format!("ERR:{}", err_kind2(&e)),
             Some(Ok(q)) => sem_wire(&q).unwrap_or_else(|| "ERR:UNMAPPABLE".into()),
         };
-        let unsp = if ik == "UNSPENDABLE" { UNSPENDABLE.to_string() } else { "-".to_string() };
-        self.out.line(&format!("J trlift {} {} {} {}", entry, pw, unsp, lifted), "ok");
+        let unsp = if ik == "UNSPENDABLE" { self.unsp.to_string() } else { "-".to_string() };
+        // the lift judge enumerates all 2^atoms assignments: policies with more than 12 atom
+        // occurrences are left to `compiledtr` (which enumerates key / hash subsets x lock gaps only)
+        let n_atoms = pw.matches("pk(").count() + pw.matches("older(").count() + pw.matches("after(").count()
+            + pw.matches("sha256(").count() + pw.matches("hash256(").count() + pw.matches("hash160(").count() + pw.matches("ripemd160(").count();
+        if n_atoms <= 12 {
+            self.out.line(&format!("J trlift {} {} {} {}", entry, pw, unsp, lifted), "ok");
+        } else {
+            self.out.count("trlift not emitted (> 12 atoms)");
+        }
         // Kraft equality: the leaf depths describe a full binary tree (no dropped/duplicated slot)
         let kraft: u128 = depths.iter().map(|d| 1u128 << (64 - (*d as u32).min(64))).sum();
         let kraft_ok = depths.is_empty() || kraft == 1u128 << 64;
@@ -325,13 +413,14 @@ impl<'a> Run<'a> {
         }
     }
 
-    fn compile_ms<Pk: msops::HKey, Ctx: ScriptContext>(&mut self, ctx: CtxK, c: &CA,
+    fn compile_ms<Pk: msops::HKey + Kid8, Ctx: ScriptContext>(&mut self, ctx: CtxK, c: &CA,
         parse: &dyn Fn(&str) -> Result<Miniscript<Pk, Ctx>, miniscript::Error>) {
         let pw = ca_wire(c);
         let pol: Concrete<Pk> = match build(c) { Some(p) => p, None => { self.out.count("policy not constructible"); return; } };
         let what = format!("ms-{}", ctx.name());
         let r = self.timed(&what, &pw, || pol.compile::<Ctx>());
-        if matches!(ctx, CtxK::Segwitv0 | CtxK::Tap) && n_leaves(c) <= 4 {
+        self.refuses_line(ctx.name(), &what, c, &pw, &r);
+        if matches!(ctx, CtxK::Segwitv0 | CtxK::Tap) && n_leaves(c) <= 4 && odds_textual(c) {
             let outcome = match &r { None => "PANIC".to_string(), Some(Err(e)) => format!("Err:{}", err_kind2(e)), Some(Ok(_)) => "Ok".to_string() };
             self.out.line(&format!("J compiles {} {} {}", ctx.name(), pw, outcome), "ok");
         }
@@ -341,6 +430,37 @@ impl<'a> Run<'a> {
             Some(Ok(ms)) => {
                 self.out.count(&format!("compiled {}", what));
                 self.judge_ms(ctx.name(), ctx, &pw, &ms, parse);
+            }
+        }
+    }
+
+    /// a chosen subset of the targets (large policies, key-kind cases)
+    fn some_targets(&mut self, c: &CA, which: &[&str]) {
+        for w in which {
+            match *w {
+                "ms-segwitv0" => self.compile_ms::<PublicKey, Segwitv0>(CtxK::Segwitv0, c, &|s| Miniscript::from_str(s)),
+                "ms-legacy" => self.compile_ms::<PublicKey, Legacy>(CtxK::Legacy, c, &|s| Miniscript::from_str(s)),
+                "ms-bare" => self.compile_ms::<PublicKey, BareCtx>(CtxK::Bare, c, &|s| Miniscript::from_str(s)),
+                "ms-tap" => self.compile_ms::<XOnlyPublicKey, Tap>(CtxK::Tap, &remap(c, 200), &|s| Miniscript::from_str(s)),
+                // full (compressed / uncompressed) keys in the Tap context
+                "ms-tap-full" => self.compile_ms::<PublicKey, Tap>(CtxK::Tap, c, &|s| Miniscript::from_str(s)),
+                // x-only keys outside Tap
+                "x-segwitv0" => self.compile_ms::<XOnlyPublicKey, Segwitv0>(CtxK::Segwitv0, &remap(c, 200), &|s| Miniscript::from_str(s)),
+                "x-legacy" => self.compile_ms::<XOnlyPublicKey, Legacy>(CtxK::Legacy, &remap(c, 200), &|s| Miniscript::from_str(s)),
+                "x-bare" => self.compile_ms::<XOnlyPublicKey, BareCtx>(CtxK::Bare, &remap(c, 200), &|s| Miniscript::from_str(s)),
+                "desc-sh" | "desc-wsh" => {
+                    let pw = ca_wire(c);
+                    let pol: Concrete<PublicKey> = match build(c) { Some(p) => p, None => return };
+                    let kind = &w[5..];
+                    let r = self.timed(w, &pw, || pol.compile_to_descriptor::<Segwitv0>(if kind == "sh" { DescriptorCtx::Sh } else { DescriptorCtx::Wsh }));
+                    self.refuses_line(if kind == "sh" { "legacy" } else { "segwitv0" }, w, c, &pw, &r);
+                    match r {
+                        None => {}
+                        Some(Err(e)) => self.out.count(&format!("err {} {}", w, err_kind2(&e))),
+                        Some(Ok(d)) => { self.out.count(&format!("compiled {}", w)); self.judge_desc(kind, &pw, &d); }
+                    }
+                }
+                _ => unreachable!(),
             }
         }
     }
@@ -357,7 +477,7 @@ impl<'a> Run<'a> {
         }
         let pw = ca_wire(c);
         let pol: Concrete<PublicKey> = match build(c) { Some(p) => p, None => return };
-        let unsp = ast::full_key(UNSPENDABLE);
+        let unsp = ast::full_key(self.unsp);
         // descriptors
         let dctxs: Vec<(&str, Box<dyn Fn() -> DescriptorCtx<PublicKey>>)> = vec![
             ("bare", Box::new(|| DescriptorCtx::Bare)),
@@ -372,7 +492,10 @@ impl<'a> Run<'a> {
             if self.tr_only && !kind.starts_with("tr-") { continue; }
             let what = format!("desc-{}", kind);
             // the type parameter of compile_to_descriptor is a phantom (the descriptor kind fixes the context)
-            match self.timed(&what, &pw, || pol.compile_to_descriptor::<Segwitv0>(mk())) {
+            let r = self.timed(&what, &pw, || pol.compile_to_descriptor::<Segwitv0>(mk()));
+            let dctx = match *kind { "bare" => "bare", "sh" => "legacy", "wsh" | "shwsh" => "segwitv0", _ => "tap" };
+            self.refuses_line(dctx, &what, c, &pw, &r);
+            match r {
                 None => {}
                 Some(Err(e)) => self.out.count(&format!("err {} {}", what, err_kind2(&e))),
                 Some(Ok(d)) => { self.out.count(&format!("compiled {}", what)); self.judge_desc(kind, &pw, &d); }
@@ -381,21 +504,33 @@ impl<'a> Run<'a> {
         // taproot entry points
         for (uk, un) in [(None, "none"), (Some(unsp), "unsp")] {
             let what = format!("tr-{}", un);
-            match self.timed(&what, &pw, || pol.compile_tr(uk)) {
+            let r = self.timed(&what, &pw, || pol.compile_tr(uk));
+            self.refuses_line("tap", &what, c, &pw, &r);
+            match r {
                 None => {}
                 Some(Err(e)) => self.out.count(&format!("err {} {}", what, err_kind2(&e))),
                 Some(Ok(d)) => { self.out.count(&format!("compiled {}", what)); self.judge_tr(&what, &pw, &d); }
             }
             let what = format!("trpriv-{}", un);
-            match self.timed(&what, &pw, || pol.compile_tr_private_experimental(uk)) {
+            let r = self.timed(&what, &pw, || pol.compile_tr_private_experimental(uk));
+            self.refuses_line("tap", &what, c, &pw, &r);
+            match r {
                 None => {}
                 Some(Err(e)) => self.out.count(&format!("err {} {}", what, err_kind2(&e))),
                 Some(Ok(d)) => { self.out.count(&format!("compiled {}", what)); self.judge_tr(&what, &pw, &d); }
             }
-            for max_leaves in [1usize, 4, 1024] {
-                if (light || self.tr_only) && max_leaves != 1024 { continue; }
+            for max_leaves in [0usize, 1, 4, 1024] {
+                if (light || self.tr_only) && max_leaves != 1024 && max_leaves != 0 { continue; }
+                if self.no_native { continue; }
                 let what = format!("trnative{}-{}", max_leaves, un);
-                match self.timed(&what, &pw, || pol.compile_tr_native(uk, max_leaves)) {
+                let r = self.timed(&what, &pw, || pol.compile_tr_native(uk, max_leaves));
+                self.refuses_line("tap", &what, c, &pw, &r);
+                if max_leaves == 0 {
+                    // documented: max_leaves = 0 is refused
+                    let oc = match &r { None => "PANIC".to_string(), Some(Err(e)) => format!("Err:{}", err_kind2(e)), Some(Ok(_)) => "Ok".to_string() };
+                    self.out.count(&format!("trnative0 outcome {}", oc));
+                }
+                match r {
                     None => {}
                     Some(Err(e)) => self.out.count(&format!("err {} {}", what, err_kind2(&e))),
                     Some(Ok(d)) => { self.out.count(&format!("compiled {}", what)); self.judge_tr(&what, &pw, &d); }
@@ -454,12 +589,14 @@ fn shapes(depth: usize, max_slots: usize) -> Vec<Shape> {
 #[derive(Clone, Copy, PartialEq, Eq, Debug)]
 enum Kind { Key, Hash, After, Older, AfterT, OlderT, Triv, Unsat }
 
-struct Fill { nk: u32, nh: u32, na: u32, no: u32 }
+struct Fill { nk: u32, nh: u32, na: u32, no: u32, /// rotation of the hash-kind cycle
+    hrot: u32 }
 impl Fill {
     fn atom(&mut self, k: Kind) -> A {
         match k {
             Kind::Key => { self.nk += 1; A::Key(self.nk - 1) }
-            Kind::Hash => { self.nh += 1; let i = self.nh - 1; if i % 2 == 0 { A::Hash(0, i / 2) } else { A::Hash(3, 1 + i / 2) } }
+            // sha256, hash160, hash256, ripemd160 in turn (ids < 4 per kind)
+            Kind::Hash => { self.nh += 1; let i = self.nh - 1; A::Hash([0u8, 3, 1, 2][((i + self.hrot) % 4) as usize], (i / 4) + (i % 4) % 2) }
             Kind::After => { self.na += 1; A::After(100 * self.na) }
             Kind::Older => { self.no += 1; A::Older(10 * self.no) }
             Kind::AfterT => { self.na += 1; A::After(500_000_000 + self.na) }
@@ -537,15 +674,19 @@ pub fn run(out: &mut Out, thorough: bool, seed: u64) {
     std::panic::set_hook(Box::new(|_| {}));
     let mut rng = Rng(seed ^ 0xC08);
     ast::emit_defs(out);
+    emit_more_keys(out);
 
     // correspondence of the context-restriction model (validate with Ctx::SANE)
     for ctx in CtxK::ALL {
         let atoms = ast::default_atoms(ctx, false);
         let nodes = ast::enumerate(ctx, &atoms, 2, if thorough { 30 } else { 8 }, &mut rng);
         for t in nodes { with_ctx!(ctx, sane_line(out, ctx, &t.node)); }
+        // designated fragments (all hash kinds, both lock units, uncompressed / mixed key encodings,
+        // raw key hashes, one-child thresholds …)
+        for n in ast::dimension_corpus(ctx) { with_ctx!(ctx, sane_line(out, ctx, &n)); }
     }
 
-    let mut run = Run { out, programs: 0, slowest_ms: 0, slowest: String::new(), tr_only: false };
+    let mut run = Run { out, programs: 0, slowest_ms: 0, slowest: String::new(), tr_only: false, panic_obs: None, big: false, unsp: UNSPENDABLE, no_native: false, all_refuses: false };
     let mut n_pol = 0u64;
     let mut seen: BTreeSet<String> = BTreeSet::new();
     let t_start = Instant::now();
@@ -776,6 +917,113 @@ pub fn run(out: &mut Out, thorough: bool, seed: u64) {
     let t_gap = t_start.elapsed().as_millis();
     run.out.note("time_until_exhaustive_part_ms", t_gap.to_string());
 
+    // ------------------------------------------------------------------ input-dimension cells
+    let older10 = CA::Leaf(A::Older(10));
+    run.all_refuses = true;
+    // constants and mixed locks (deterministic, every tier)
+    let det: Vec<CA> = vec![
+        CA::Leaf(A::Triv), CA::Leaf(A::Unsat),
+        CA::Or(vec![(1, key(0)), (1, CA::Leaf(A::Triv))]), CA::Or(vec![(9, CA::Leaf(A::Triv)), (1, key(0))]),
+        CA::And(vec![key(0), CA::Leaf(A::Unsat)]), CA::And(vec![CA::Leaf(A::Triv), key(0)]),
+        CA::Thresh(2, vec![key(0), CA::Leaf(A::Unsat), key(1)]), CA::Thresh(1, vec![key(0), CA::Leaf(A::Triv)]),
+        CA::Thresh(2, vec![key(0), CA::Leaf(A::Triv), key(1)]),
+        CA::Or(vec![(1, key(0)), (1, CA::And(vec![key(1), CA::Leaf(A::Unsat)]))]),
+        CA::And(vec![key(0), CA::And(vec![CA::Leaf(A::After(100)), CA::Leaf(A::After(500_000_001))])]),
+        CA::Thresh(2, vec![CA::Leaf(A::Older(10)), CA::Leaf(A::Older(4_194_314)), key(0)]),
+        CA::Thresh(3, vec![CA::Leaf(A::Older(10)), CA::Leaf(A::Older(4_194_314)), key(0)]),
+        CA::Or(vec![(1, CA::And(vec![key(0), CA::Leaf(A::After(100))])), (1, CA::And(vec![key(1), CA::Leaf(A::After(500_000_001))]))]),
+    ];
+    for c in &det {
+        if seen.insert(ca_wire(c)) { n_pol += 1; run.out.count("policy constants / mixed locks"); run.all_targets(c, false); }
+    }
+    // uncompressed keys (ids 100..): Bare / Legacy accept them, Segwitv0 / Tap / tr must refuse; also
+    // as the caller's unspendable key
+    run.panic_obs = Some("uncompressed key in a taproot compilation");
+    let unc: Vec<CA> = vec![
+        key(100),
+        CA::Or(vec![(1, key(100)), (1, CA::And(vec![key(1), older10.clone()]))]),
+        CA::Or(vec![(9, key(1)), (1, key(100))]),
+        CA::And(vec![key(100), older10.clone()]),
+        CA::Thresh(2, vec![key(100), key(1), key(2)]),
+        CA::Thresh(2, vec![key(100), key(101), key(102)]),
+        CA::Or(vec![(1, key(1)), (1, CA::And(vec![key(100), key(101)]))]),
+    ];
+    for c in &unc {
+        if seen.insert(ca_wire(c)) {
+            n_pol += 1; run.out.count("policy uncompressed keys");
+            run.some_targets(c, &["ms-bare", "ms-legacy", "ms-segwitv0", "ms-tap-full", "desc-sh", "desc-wsh"]);
+            run.tr_only = true; run.all_targets(c, false); run.tr_only = false;
+        }
+    }
+    run.unsp = 100;
+    for c in [CA::And(vec![key(0), older10.clone()]), CA::Or(vec![(1, CA::And(vec![key(0), older10.clone()])), (1, CA::And(vec![key(1), CA::Leaf(A::Hash(0, 0))]))]), key(0)] {
+        n_pol += 1; run.out.count("policy with an uncompressed unspendable key");
+        run.tr_only = true; run.all_targets(&c, false); run.tr_only = false;
+    }
+    run.unsp = UNSPENDABLE;
+    // x-only keys outside Tap: must be refused
+    run.panic_obs = Some("x-only key outside Tap");
+    for c in [key(0), CA::Or(vec![(1, key(0)), (1, CA::And(vec![key(1), older10.clone()]))]), CA::Thresh(2, vec![key(0), key(1), key(2)])] {
+        n_pol += 1; run.out.count("policy x-only keys outside Tap");
+        run.some_targets(&c, &["x-segwitv0", "x-legacy", "x-bare"]);
+    }
+    // odds that only the public enum can express (the parser insists on 1 <= odds <= u32::MAX)
+    run.panic_obs = Some("or-odds 0 / usize::MAX (not expressible in text)");
+    let b1 = CA::And(vec![key(1), older10.clone()]);
+    let odd: Vec<CA> = vec![
+        CA::Or(vec![(0, key(0)), (1, key(1))]), CA::Or(vec![(1, key(0)), (0, key(1))]),
+        CA::Or(vec![(0, key(0)), (0, key(1))]), CA::Or(vec![(0, key(0)), (0, b1.clone())]),
+        CA::Or(vec![(usize::MAX, key(0)), (1, key(1))]), CA::Or(vec![(usize::MAX, key(0)), (usize::MAX, b1.clone())]),
+        CA::Or(vec![(usize::MAX / 2 + 1, key(0)), (usize::MAX / 2 + 1, key(1))]),
+        CA::And(vec![key(2), CA::Or(vec![(0, key(0)), (1, b1.clone())])]),
+        CA::Or(vec![(1, key(0)), (2, b1.clone())]), CA::Or(vec![(2, key(0)), (4, b1.clone())]),
+        CA::Or(vec![(4_294_967_295, key(0)), (1, b1.clone())]), CA::Or(vec![(4_294_967_296, key(0)), (1, b1.clone())]),
+    ];
+    for c in &odd {
+        // OBSERVATION (outside C08's statement, enum-only input): when the usize sum of the odds
+        // wraps to 0, compile_tr_native overflows the native stack (process abort, cannot be
+        // caught), e.g. compile_tr_native(None, 1) on or(18446744073709551615@pk(0),1@pk(1)):
+        // those policies skip the native entry point
+        let wraps = match c { CA::Or(v) => v.iter().map(|x| x.0).fold(0usize, |a, b| a.wrapping_add(b)) < v[0].0, CA::And(_) => false, _ => false };
+        run.no_native = wraps;
+        if wraps { run.out.count("observation: odds whose usize sum wraps: compile_tr_native not called (native stack overflow)"); }
+        if seen.insert(ca_wire(c)) { n_pol += 1; run.out.count("policy enum-only odds"); run.all_targets(c, false); }
+    }
+    run.no_native = false;
+    run.panic_obs = None;
+    run.all_refuses = false;
+    // resource limits on large outputs: whatever is returned must be within the context's limits
+    run.big = true;
+    let keys_n = |n: u32| -> Vec<CA> { (0..n).map(key).collect() };
+    fn conj(v: &[CA]) -> CA {
+        if v.len() == 1 { return v[0].clone(); }
+        let m = v.len() / 2;
+        CA::And(vec![conj(&v[..m]), conj(&v[m..])])
+    }
+    for n in [14u32, 15, 16] {
+        // around the 520-byte redeem script limit (multi: 3 + 34 n, conjunction: 35 n)
+        for c in [CA::Thresh(n as usize, keys_n(n)), CA::Thresh(1, keys_n(n)), conj(&keys_n(n))] {
+            n_pol += 1; run.out.count("policy large: Legacy script size boundary");
+            run.some_targets(&c, &["ms-legacy", "desc-sh", "ms-bare", "ms-segwitv0"]);
+        }
+    }
+    for n in [20u32, 21] {
+        // across MAX_PUBKEYS_PER_MULTISIG
+        for k in [2usize, n as usize - 1] {
+            let c = CA::Thresh(k, keys_n(n));
+            n_pol += 1; run.out.count("policy large: multi / multi_a key-count boundary");
+            run.some_targets(&c, &["ms-segwitv0", "desc-wsh", "ms-tap", "ms-legacy"]);
+        }
+    }
+    for n in [98u32, 99, 100] {
+        // around 100 witness items in Segwitv0
+        let c = conj(&keys_n(n));
+        n_pol += 1; run.out.count("policy large: Segwitv0 witness-item boundary");
+        run.some_targets(&c, &["ms-segwitv0", "desc-wsh", "ms-tap"]);
+    }
+    run.big = false;
+    run.out.note("t_after dimension cells", t_start.elapsed().as_millis().to_string());
+
     // rare branches: with extreme odds the compiler trades witness size for script size, which
     // is where its special cases (thresh -> multi / multi_a, andor, or_i orderings) are actually
     // chosen.  Every k-of-n over keys (n <= 4) and every depth-1 shape over keys, as the 1-in-1000
@@ -793,7 +1041,7 @@ pub fn run(out: &mut Out, thorough: bool, seed: u64) {
     }
     for s in shapes(1, 3) {
         let kv: Vec<Kind> = (0..slots(&s)).map(|_| Kind::Key).collect();
-        let mut f = Fill { nk: 0, nh: 0, na: 0, no: 0 };
+        let mut f = Fill { nk: 0, nh: 0, na: 0, no: 0, hrot: 0 };
         let body = fill(&s, &kv, &mut 0, &mut f);
         rare.push(CA::Or(vec![(999, key(7)), (1, body.clone())]));
         rare.push(CA::Or(vec![(1, body), (99, key(7))]));
@@ -812,14 +1060,15 @@ pub fn run(out: &mut Out, thorough: bool, seed: u64) {
     run.out.note("shapes", format!("depth<=1: {}, depth 2: {}", d1.len(), d2.len()));
     let mut cases: Vec<(CA, &'static str)> = vec![];
     for s in &d1 {
-        for kv in kind_vectors(slots(s), &pool_main) {
-            let mut f = Fill { nk: 0, nh: 0, na: 0, no: 0 };
+        for (ci, kv) in kind_vectors(slots(s), &pool_main).into_iter().enumerate() {
+            // all four hash functions take their turn as the first hash of a policy
+            let mut f = Fill { nk: 0, nh: 0, na: 0, no: 0, hrot: ci as u32 % 4 };
             cases.push((fill(s, &kv, &mut 0, &mut f), "policy depth<=1 exhaustive"));
         }
         // the rarer kinds: one random vector per shape (three in the thorough tier)
         for _ in 0..(if thorough { 3 } else { 1 }) {
             let kv: Vec<Kind> = (0..slots(s)).map(|_| *rng.pick(&pool_all)).collect();
-            let mut f = Fill { nk: 0, nh: 0, na: 0, no: 0 };
+            let mut f = Fill { nk: 0, nh: 0, na: 0, no: 0, hrot: 0 };
             cases.push((fill(s, &kv, &mut 0, &mut f), "policy depth<=1 rare kinds"));
         }
     }
@@ -831,7 +1080,7 @@ pub fn run(out: &mut Out, thorough: bool, seed: u64) {
                 if j == 0 && !thorough && rng.below(3) > 0 { return Kind::Key; }
                 match rng.below(10) { 0 => Kind::Hash, 1 => Kind::After, 2 => Kind::Older, 3 => *rng.pick(&pool_all), _ => Kind::Key }
             }).collect();
-            let mut f = Fill { nk: 0, nh: 0, na: 0, no: 0 };
+            let mut f = Fill { nk: 0, nh: 0, na: 0, no: 0, hrot: 0 };
             cases.push((fill(s, &kv, &mut 0, &mut f), "policy depth 2 sampled"));
         }
     }
@@ -854,7 +1103,7 @@ pub fn run(out: &mut Out, thorough: bool, seed: u64) {
     let n_rand = if thorough { 1500 } else { 60 };
     for _ in 0..n_rand {
         if t_start.elapsed().as_secs() > budget_s + 15 { run.out.count("skipped: time budget"); break; }
-        let mut f = Fill { nk: 0, nh: 0, na: 0, no: 0 };
+        let mut f = Fill { nk: 0, nh: 0, na: 0, no: 0, hrot: 0 };
         let mut budget = if thorough { 8 } else { 6 };
         let depth = if thorough { 4 } else { 3 };
         let c = rand_policy(&mut rng, depth, &mut budget, &mut f);
